@@ -311,7 +311,36 @@ class Gen:
         return None
 
 
+IDIOMS = [
+    # a stream built from the event (with its own stage lambda) handed to a helper that uses it
+    # underneath another stage lambda - the shape an inlined Python helper function takes
+    "Select(ds, lambda {x}: (lambda {s}: Select({x}.jets, lambda {x2}: Count({s}) + {x2}.pt))(Select({x}.jets, lambda {x3}: {x3}.eta * 2)))",
+    "Select(ds, lambda {x}: (lambda {s}, {n}: Select({x}.jets, lambda {x2}: ({x2}.pt, Count({s}), {n})))(Where({x}.jets, lambda {x3}: {x3}.pt > 1), {x}.w))",
+    "SelectMany(ds, lambda {x}: Select((lambda {n}: Where({x}.jets, lambda {x2}: {n} > {x2}.eta))(Count(Where({x}.jets, lambda {x3}: {x3}.pt > 1))), lambda {x4}: {x4}.pt))",
+    "Select(ds, lambda {x}: (lambda {s}: Count(Where({x}.jets, lambda {x2}: Count({s}) > {x2}.eta)))(Select({x}.jets, lambda {x3}: ({x3}.pt, {x}.w))))",
+    "Select(ds, lambda {x}: (lambda {s}: Select({s}, lambda {x2}: {x2} + Count({s})))(Select({x}.jets, lambda {x3}: {x3}.pt + {x}.x)))",
+    "Where(ds, lambda {x}: (lambda {s}, {n}: Count(Where({s}, lambda {x2}: {x2} > {n})) > 0)(Select({x}.jets, lambda {x3}: {x3}.pt), {x}.x))",
+    "Select(Select(ds, lambda {x}: (lambda {s}: ({s}, Select({s}, lambda {x2}: {x2}.pt)))({x}.jets)), lambda {x3}: Count({x3}[0]) + Count({x3}[1]))",
+    "SelectMany(ds, lambda {x}: (lambda {s}: SelectMany({s}, lambda {x2}: Select({s}, lambda {x3}: {x2}.pt - {x3}.pt)))(Where({x}.jets, lambda {x4}: {x4}.eta > -2)))",
+]
+
+
+def gen_idiom(rng, g):
+    names = {k: g.fresh("stage") for k in ("x", "x2", "x3", "x4")}
+    names.update({k: g.fresh("helper") for k in ("s", "n")})
+    if names["s"] == names["n"] or {names["s"], names["n"]} & {names[k] for k in ("x", "x2", "x3", "x4")}:
+        return None
+    q = rng.choice(IDIOMS).format(**names)
+    if rng.random() < 0.3:
+        q = "Select(%s, lambda %s: %s)" % (q, names["x"], names["x"])
+    return q
+
+
 def gen_query(rng, names, reuse=0.0, helpers=None):
+    if rng.random() < 0.15:
+        q = gen_idiom(rng, Gen(rng, names, reuse, helpers))
+        if q:
+            return q
     for _ in range(50):
         g = Gen(rng, names, reuse, helpers)
         T = ("seq", g.anyT())
